@@ -137,7 +137,20 @@ def f2_witness():
     return {"id": "corpus-f2", "nodes": nodes, "ops": ops}
 
 
-CORPUS = [f2_witness()]
+def left_relearn_witness():
+    """x left and told b and c; b has expired it, c not yet; b gossips with c: c must not push x back (seeded
+    change C11-2: the digest handler answering with the nodes the sender does not list)"""
+    nodes = [{"id": H(x), "addr": H("10.0.0.%d:7000" % (i + 1))} for i, x in enumerate(["b", "c", "x"])]
+    D = {"op": "deliver", "i": 0, "max": 1400}
+    ops = [{"op": "upsert", "n": 2, "k": H("k"), "v": H("v")},
+           {"op": "join", "a": 2, "b": 0}, {"op": "join", "a": 2, "b": 1}, {"op": "join", "a": 1, "b": 0},
+           {"op": "leave", "n": 2}, {"op": "leavestream", "a": 2, "b": 0}, {"op": "leavestream", "a": 2, "b": 1},
+           {"op": "expire", "n": 0, "ref": H("x"), "d": 1},
+           {"op": "send", "a": 0, "b": 1, "max": 1400}, D, D, D, D]
+    return {"id": "corpus-left-relearn", "nodes": nodes, "ops": ops}
+
+
+CORPUS = [f2_witness(), left_relearn_witness()]
 
 
 def run(ctx):
@@ -145,7 +158,7 @@ def run(ctx):
     quick = ctx["tier"] == "quick"
     wd = ctx["wd"]
     n = 150 if quick else 4000
-    cases = list(CORPUS) + [gen_world_case(rng, "g%d" % i, PROFILE_MEMBER) for i in range(n)]
+    cases = list(CORPUS) + [gen_world_case(rng, "g%d" % i, PROFILE_MEMBER) if i % 3 else gen_member_case(rng, "m%d" % i) for i in range(n)]
     binary = build_harness("pkg/gossip", dirs=["gossip"])
     outs = run_world(binary, wd, cases)
     kf = {k["sig"]: k for k in known_findings() if k["property"] == ID and k["kind"] == "known"}
